@@ -25,7 +25,7 @@ func (c05World) Props() []string { return []string{"C05"} }
 
 func (c05World) Components() (real, stub []string) {
 	return []string{"Logger.With/Level/Sample/Hook/Output/UpdateContext", "Context field methods, Ctx, Stack", "Logger.newEvent / Event lifecycle with several events open at once", "Dict/Arr/Object marshalers reading GetCtx", "event/array pools (through the pool shim)"},
-		[]string{"destination writers (recording per task)", "hooks and marshalers (record the Go context they see, yield)", "samplers (stateless by level, BasicSampler{0|1})", "ErrorStackMarshaler (constant)", "sync.Pool policy"}
+		[]string{"destination writers (recording per task)", "hooks and marshalers (record the Go context they see, yield)", "samplers (stateless by level, BasicSampler{0|1}, a counting every-2nd/3rd sampler in single-task runs)", "ErrorStackMarshaler (constant)", "sync.Pool policy"}
 }
 
 type c5Key struct{}
@@ -35,7 +35,8 @@ type c5Model struct {
 	fields  [][]fop
 	hooks   []string
 	level   zerolog.Level
-	sampler int // 0 none, 1 admits >= Warn, 2 BasicSampler{1}, 3 BasicSampler{0}
+	sampler int // 0 none, 1 admits >= Warn, 2 BasicSampler{1}, 3 BasicSampler{0}, 4 stateful (samp)
+	samp    *c5Stateful
 	stack   bool
 	ctxID   int
 }
@@ -88,6 +89,48 @@ type c5Run struct {
 	tasks  map[int]*c5Task
 	nEv    int
 	single bool
+
+	stateful   []*c5Stateful
+	verdict    map[string]int // event id -> -1 sampler not consulted, 0 rejected, 1 admitted
+	refVerdict int
+}
+
+// openOn opens ev on node n. With stateful samplers about (single-task runs) it also
+// checks who was consulted: the node's own sampler exactly once if the node's level lets
+// the event through, and no sampler otherwise — an event that the level rejects is not
+// part of the population a sampler samples, and must not use up a sampler's state.
+func (r *c5Run) openOn(n *c5Node, ev c5Event) *zerolog.Event {
+	if len(r.stateful) == 0 {
+		return r.open(&n.lg, ev)
+	}
+	before := make([]int, len(r.stateful))
+	for i, s := range r.stateful {
+		before[i] = s.count
+	}
+	e := r.open(&n.lg, ev)
+	eligible := ev.level >= n.m.level
+	v := -1
+	for i, s := range r.stateful {
+		d := s.count - before[i]
+		want := 0
+		if s == n.m.samp && eligible {
+			want = 1
+		}
+		if d != want {
+			zsim.Fail("C05.sampler", "node %d (%s, level %v) started event %s at level %v: stateful sampler #%d%s was consulted %d time(s), expected %d (a sampler sees exactly the events that its logger's level lets through, once each)", n.id, n.path, n.m.level, ev.id, ev.level, s.id, map[bool]string{true: " (the node's own)", false: " (not the node's)"}[s == n.m.samp], d, want)
+		}
+		if s == n.m.samp && d == 1 {
+			v = 0
+			if s.last {
+				v = 1
+			}
+		}
+	}
+	if r.verdict == nil {
+		r.verdict = map[string]int{}
+	}
+	r.verdict[ev.id] = v
+	return e
 }
 
 func (r *c5Run) task() *c5Task {
@@ -183,6 +226,34 @@ type c5LvlSampler struct{}
 
 func (c5LvlSampler) Sample(l zerolog.Level) bool { return l >= zerolog.WarnLevel }
 
+// c5Stateful is a sampler with a memory, as BasicSampler{N>1} or BurstSampler have: its
+// verdict depends on how many times it has been consulted. It is shared by every logger
+// derived below the Sample() call that installed it. Only used in single-task runs, where
+// the sequence of consultations is determined: exactly one per event that the level of
+// the logging node (and the global level) lets through, none for the others.
+type c5Stateful struct {
+	id, period int
+	count      int
+	last       bool
+}
+
+func (s *c5Stateful) Sample(l zerolog.Level) bool {
+	s.count++
+	s.last = s.count%s.period == 1
+	return s.last
+}
+
+// c5Mirror stands for a stateful sampler in the isolated reference logger: it repeats the
+// verdict the event under test was given.
+type c5Mirror struct{ r *c5Run }
+
+func (m c5Mirror) Sample(l zerolog.Level) bool {
+	if m.r.refVerdict < 0 {
+		zsim.Fail("C05.sampler", "the sampler of the logger was not consulted for an event that a logger built alone from the same derivation puts to its sampler")
+	}
+	return m.r.refVerdict == 1
+}
+
 func mkSampler(k int) zerolog.Sampler {
 	switch k {
 	case 1:
@@ -229,7 +300,9 @@ func (r *c5Run) refLogger(m c5Model, w io.Writer) zerolog.Logger {
 		}
 	}
 	lg = lg.Level(m.level)
-	if m.sampler != 0 {
+	if m.sampler == 4 {
+		lg = lg.Sample(c5Mirror{r})
+	} else if m.sampler != 0 {
 		lg = lg.Sample(mkSampler(m.sampler))
 	}
 	return lg
@@ -301,6 +374,11 @@ func (r *c5Run) emitChecked(e *zerolog.Event, ev c5Event, m c5Model, what string
 			t.seen = nil
 		} else {
 			t.inRef = true
+			r.refVerdict = -1
+			if v, ok := r.verdict[ev.id]; ok {
+				r.refVerdict = v
+				delete(r.verdict, ev.id)
+			}
 			ref := r.refLogger(m, c5RefSink{&want})
 			e = r.open(&ref, ev)
 		}
@@ -422,6 +500,14 @@ func (r *c5Run) derive(p *c5Node) *c5Node {
 		m.level = []zerolog.Level{zerolog.DebugLevel, zerolog.InfoLevel, zerolog.WarnLevel, zerolog.ErrorLevel, zerolog.Disabled, zerolog.TraceLevel}[ch.Intn(6)]
 		return r.addNode(p.lg.Level(m.level), m, fmt.Sprintf("n%d.Level(%v)", p.id, m.level))
 	case 2:
+		if r.single && ch.Chance(1, 2) {
+			st := &c5Stateful{id: len(r.stateful), period: 2 + ch.Intn(2)}
+			r.stateful = append(r.stateful, st)
+			m.sampler, m.samp = 4, st
+			zsim.Probe("stateful_sampler")
+			return r.addNode(p.lg.Sample(st), m, fmt.Sprintf("n%d.Sample(stateful#%d every %d)", p.id, st.id, st.period))
+		}
+		m.samp = nil
 		m.sampler = 1 + ch.Intn(3)
 		return r.addNode(p.lg.Sample(mkSampler(m.sampler)), m, fmt.Sprintf("n%d.Sample(%d)", p.id, m.sampler))
 	case 3:
@@ -532,11 +618,11 @@ func (r *c5Run) worker(nOps int) func() {
 				}
 			case 1:
 				ev := r.genEvent()
-				r.emitChecked(r.open(&n.lg, ev), ev, n.m, fmt.Sprintf("node %d", n.id))
+				r.emitChecked(r.openOn(n, ev), ev, n.m, fmt.Sprintf("node %d", n.id))
 			case 2:
 				if len(open) < 4 {
 					ev := r.genEvent()
-					open = append(open, c5Open{r.open(&n.lg, ev), ev, n.m, n.id})
+					open = append(open, c5Open{r.openOn(n, ev), ev, n.m, n.id})
 					if len(open) >= 2 {
 						zsim.Probe("open_events_overlap")
 					}
@@ -549,7 +635,7 @@ func (r *c5Run) worker(nOps int) func() {
 				// probe an older node: has anything that happened since changed it?
 				old := r.nodes[ch.Intn(1+len(r.nodes)/2)]
 				ev := r.genEvent()
-				r.emitChecked(r.open(&old.lg, ev), ev, old.m, fmt.Sprintf("probe of older node %d", old.id))
+				r.emitChecked(r.openOn(old, ev), ev, old.m, fmt.Sprintf("probe of older node %d", old.id))
 			}
 		}
 		for len(open) > 0 {
@@ -616,7 +702,7 @@ func (c05World) Run(prop string, ch *zsim.Choices, trace bool) *RunResult {
 		// final probes: every node still emits exactly its own derivation
 		for _, n := range r.nodes {
 			ev := r.genEvent()
-			r.emitChecked(r.open(&n.lg, ev), ev, n.m, fmt.Sprintf("final probe of node %d", n.id))
+			r.emitChecked(r.openOn(n, ev), ev, n.m, fmt.Sprintf("final probe of node %d", n.id))
 		}
 		summary += fmt.Sprintf(" nodes=%d events=%d", len(r.nodes), r.nEv)
 	}
